@@ -69,6 +69,7 @@ static void fixture(const char *p0, const char *p1, const char *enc1)
   char txt[1000]; int n = 0;
   rmrf(DD); mkdir(DD, 0777);
   snprintf(fmt, sizeof fmt, "%s/sub", DD); mkdir(fmt, 0777);
+  snprintf(fmt, sizeof fmt, "%s/pre", DD); mkdir(fmt, 0777);
   snprintf(fmt, sizeof fmt,
     "/ENCODING none\n/ENDIAN little\n/PROTECT %s\n"
     "raw RAW UINT8 2\nr16 RAW INT16 1\nrc RAW COMPLEX64 1\n"
@@ -81,12 +82,19 @@ static void fixture(const char *p0, const char *p1, const char *enc1)
     "sindir SINDIR r16 sarray\n/ALIAS al raw\nlcbad LINCOM 1 missing 1 0\n"
     "raw/meta CONST UINT8 7\nraw/mstr STRING x\nraw/mph PHASE raw 1\n"
     "xph PHASE sraw 1\nxlc LINCOM 1 xph 1 0\nxbit BIT xlc 0 8\n"
-    "/INCLUDE sub/format1\n/REFERENCE raw\n", p0);
+    "/INCLUDE sub/format1\n/INCLUDE pre/format2 P_\n/REFERENCE raw\n", p0);
   wfile("format", fmt, strlen(fmt));
   snprintf(fmt, sizeof fmt,
     "/ENCODING %s\n/PROTECT %s\nsraw RAW UINT8 1\nsph PHASE sraw 1\nsconst CONST UINT8 1\n"
     "scarray CARRAY UINT8 1 2 3\nsstring STRING s\nssarray SARRAY p q\n", enc1, p1);
   wfile("sub/format1", fmt, strlen(fmt));
+  /* fragment 2: included with a prefix, so that field codes there carry an affix */
+  snprintf(fmt, sizeof fmt,
+    "/ENCODING none\npraw RAW UINT8 1\nplint LINTERP praw ../lut.txt\npph PHASE praw 1\npbit BIT praw 0 4\n"
+    "plc LINCOM 1 praw 2 0\nppoly POLYNOM praw 1 2\npconst CONST UINT8 3\npmult MULTIPLY praw praw\n");
+  wfile("pre/format2", fmt, strlen(fmt));
+  for (i = 0; i < 30; i++) raw[i] = (unsigned char)(2 * i);
+  wfile("pre/praw", raw, 30);
   for (i = 0; i < 100; i++) raw[i] = (unsigned char)i;
   for (i = 0; i < 50; i++) r16[i] = (int16_t)(i * 3 - 20);
   for (i = 0; i < 100; i++) rc[i] = (float)i / 2;
